@@ -490,6 +490,7 @@ class Body:
             steps += 1
             if self.local_name(l):
                 out.add(("local", self.local_name(l)))
+            out.add(("lidx", l))
             for rec in defs.get(l, ()):
                 if rec[0] == "arg":
                     out.add(("arg", rec[1]))
